@@ -1907,8 +1907,10 @@ def run(ctx):
     ctx.explore('ego', EGO_SPEC, case_ego, ctx.n(200, 1000))
     # coverage-guided campaigns over the same strategies / oracles
     ctx.fuzz('oaw', ctx.n(250, 4000))
-    if not ctx.quick:      # construct_mesh searches can take minutes
-        ctx.fuzz('cm', ctx.n(80, 1200), timeout=2400)
+    # 'cm' is not fuzzed: under instrumentation one construct_mesh case takes
+    # 15-20 s (three searches over cell numbers x stretching), i.e. fewer
+    # than 50 executions in ten minutes - the Hypothesis exploration of 'cm'
+    # above covers it.
     ctx.notes['designed_feasible'] = dict(_FEAS)
     ctx.notes['sea_surface'] = dict(_SEA)
     if _SEA['cases'] >= 60 and _SEA['node'] < 0.3*_SEA['cases']:
